@@ -390,7 +390,15 @@ def masking(index: RepoIndex, rep, rule: str, pipe: Pipeline) -> None:
 def run(index: RepoIndex, rep) -> None:
     rep.rule('C05.R7', 'row and column quantities are not exchanged when slicing, masking and building the view (axis typing, E14)', floor=1)
     from ..axes import axis_rule
-    axis_rule(index, rep, 'C05.R7', ('gym_gridverse/grid.py', 'gym_gridverse/envs/observation_functions.py', 'gym_gridverse/envs/visibility_functions.py'), floor=20)
+    axis_rule(index, rep, 'C05.R7', ('gym_gridverse/grid.py', 'gym_gridverse/geometry.py', 'gym_gridverse/envs/observation_functions.py', 'gym_gridverse/envs/visibility_functions.py'), floor=20)
+    # what is shown is the object of the world cell: no memo between the world and the view
+    # may be keyed on grids / grid objects, whose equality ignores identity and Box contents
+    # (C03.R4; decided before the slice model, which may refuse a rewritten subgrid)
+    rep.rule('C05.R6', 'observation and visibility functions are plain functions (no '
+             'memoising wrapper: states compare by value, Box contents excluded)', floor=9)
+    from ..effects import Effects
+    from .c03 import memo_rules
+    memo_rules(index, rep, 'C05.R6', Effects(index), only_rel='gym_gridverse/grid.py')
     geo = Geometry(index)
     pipe = Pipeline(index, geo)
     sub = Subgrid(index)
